@@ -27,7 +27,7 @@ TStep ==
              /\ ttab' = TargetTabNext(e, ttab)
              /\ UNCHANGED tab
     /\ l' = l + 1 /\ tr' = tr
-    /\ UNCHANGED <<hist, obs, ready, memo, th, tobs, tconn>>
+    /\ UNCHANGED <<hist, obs, ready, memo, sobj, th, tobs, tconn>>
     /\ (Diag => PrintT("AT " \o ToString(Traces[tr].plan) \o " " \o ToString(l)))
     /\ (l = Len(Traces[tr].events) => PrintT("ACC " \o Traces[tr].plan))
 
